@@ -8,8 +8,10 @@ for d in seeded/${1:-*}/; do
   prop=$(/venv/bin/python -c "import json,sys;print(json.load(open('$d/meta.json'))['property'])")
   by=$(/venv/bin/python -c "import json,re;m=json.load(open('$d/meta.json'));x=re.match(r'(C\d\d)', m.get('by',''));print(x.group(1) if x else m['property'])")
   wt=/tmp/seedrg-$$
-  git -C /repo worktree add -q --detach $wt HEAD || exit 3
-  ( cd $wt && git apply $V/$d/patch.diff ) 2>/dev/null || { echo "$name $prop PATCH-DOES-NOT-APPLY"; git -C /repo worktree remove --force $wt; continue; }
+  base=$(/venv/bin/python -c "import json;print(json.load(open('$d/meta.json')).get('base','HEAD'))")
+  pf=$V/$d/patch.diff; [ -f $V/$d/patch-rebased.diff ] && pf=$V/$d/patch-rebased.diff
+  git -C /repo worktree add -q --detach $wt $base || exit 3
+  ( cd $wt && git apply $pf ) 2>/dev/null || { echo "$name $prop PATCH-DOES-NOT-APPLY"; git -C /repo worktree remove --force $wt; continue; }
   VERIF_REPO=$wt VERIF_EVIDENCE_DIR=/tmp/seedrg-ev-$$ VERIF_REPLAY_DIR=/tmp/seedrg-ev-$$ timeout 3000 /venv/bin/python -B $V/check $by --tier quick > /tmp/seedrg-out-$$ 2>&1
   rc=$?
   echo "$name $prop by=$by exit=$rc $(grep -m1 -o 'invariant=[A-Z0-9]*' /tmp/seedrg-out-$$)"
